@@ -401,4 +401,171 @@ theorem scanFieldsM_strval (str : Bytes) (s : FSt) (hq : s.quoted = false) (he :
   rw [hfin]
   simp [prepOk_prepOk]
 
+/-! ### the rendered values are such tokens -/
+
+theorem intDigits_bytes (v : Int) : ∀ b ∈ intDigits v, isDigit b = true ∨ b = 45 := by
+  intro b hb
+  unfold intDigits at hb
+  split at hb
+  · rcases List.mem_cons.mp hb with h | h
+    · right; exact h
+    · left; exact (natDigits_spec _).2.1 b h
+  · left; exact (natDigits_spec _).2.1 b hb
+
+theorem intDigits_head (v : Int) : ∃ c t, intDigits v = c :: t ∧ (isDigit c = true ∨ c = 45) := by
+  unfold intDigits
+  split
+  · exact ⟨45, _, rfl, Or.inr rfl⟩
+  · obtain ⟨d, r, hd, hdig⟩ := natDigits_head v.natAbs
+    exact ⟨d, r, hd, Or.inl hdig⟩
+
+theorem numTok_int (v : Int) (h1 : -(2 ^ 63 : Int) ≤ v) (h2 : v < 2 ^ 63) : NumTok (intDigits v ++ [105]) where
+  nodelim := by
+    intro b hb
+    rcases List.mem_append.mp hb with h | h
+    · rcases intDigits_bytes v b h with h | h
+      · have := isDigit_ne b h; exact ⟨this.2.2.2.2.2.2.2.2.1, this.2.2.2.2.2.2.2.1⟩
+      · subst h; decide
+    · simp at h; subst h; decide
+  gate := by
+    obtain ⟨c, t, hc, hg⟩ := intDigits_head v
+    refine ⟨c, t ++ [105], by simp [hc], ?_⟩
+    rcases hg with hg | hg
+    · left; simp [isNumeric, hg]
+    · right; left; exact hg
+  ok := checkNumber_int v h1 h2
+
+theorem numTok_uint (v : Nat) (h : v < 2 ^ 64) : NumTok (natDigits v ++ [117]) where
+  nodelim := by
+    intro b hb
+    rcases List.mem_append.mp hb with h | h
+    · have := isDigit_ne b ((natDigits_spec v).2.1 b h); exact ⟨this.2.2.2.2.2.2.2.2.1, this.2.2.2.2.2.2.2.1⟩
+    · simp at h; subst h; decide
+  gate := by
+    obtain ⟨d, r, hd, hdig⟩ := natDigits_head v
+    exact ⟨d, r ++ [117], by simp [hd], Or.inl (by simp [isNumeric, hdig])⟩
+  ok := checkNumber_uint v h
+
+theorem numTok_float (text : Bytes) (h : floatTextOK text = true) : NumTok text := by
+  simp only [floatTextOK, Bool.and_eq_true, Bool.not_eq_true', List.all_eq_true, Bool.or_eq_true,
+    beq_iff_eq] at h
+  obtain ⟨⟨⟨hne, hall⟩, hok⟩, _⟩ := h
+  refine ⟨?_, ?_, ?_⟩
+  · intro b hb
+    rcases hall b hb with (h | h) | h
+    · have := isDigit_ne b h; exact ⟨this.2.2.2.2.2.2.2.2.1, this.2.2.2.2.2.2.2.1⟩
+    · subst h; decide
+    · subst h; decide
+  · cases text with
+    | nil => simp at hne
+    | cons c t =>
+      refine ⟨c, t, rfl, ?_⟩
+      rcases hall c (by simp) with (h | h) | h
+      · left; simp [isNumeric, h]
+      · left; simp [isNumeric, h]
+      · right; left; exact h
+  · cases hc : checkNumber text with
+    | ok u => rfl
+    | error e => rw [hc] at hok; cases hok
+
+theorem boolTok_true : BoolTok (str "true") :=
+  ⟨by decide, ⟨116, str "rue", rfl, by decide, by decide⟩, by rfl⟩
+theorem boolTok_false : BoolTok (str "false") :=
+  ⟨by decide, ⟨102, str "alse", rfl, by decide, by decide⟩, by rfl⟩
+
+/-! ### one field, all fields -/
+
+theorem scanFieldsM_field (k : Bytes) (v : FV) (hk : fieldKeyOK k = true) (hv : fieldValOK v = true)
+    (s : FSt) (hq : s.quoted = false) (he : s.equals = s.commas) (tail : Bytes) (ht : isTail tail) :
+    ∃ s', s'.quoted = false ∧ s'.equals = s.equals + 1 ∧ s'.commas = s.commas ∧
+      scanFieldsM .normal s (appendField k v ++ tail) = prepOk (appendField k v) (afterTok s' tail) := by
+  simp only [fieldKeyOK, Bool.and_eq_true, Bool.not_eq_true', List.isEmpty_eq_false_iff] at hk
+  have hkne : k ≠ [] := hk.1.1.1.1.1
+  have hpairs : fieldKeyPairsOK k = true := hk.1.1.1.2
+  obtain ⟨hl1, hl2⟩ := key_lookbehind s k hkne
+  have hq1 : (pushAll s (escapeString k)).quoted = false := by simp [hq]
+  have he1 : (pushAll s (escapeString k)).equals = (pushAll s (escapeString k)).commas := by simp [he]
+  unfold appendField
+  rw [List.append_assoc, scanFieldsM_key k hpairs s _ hq he]
+  have hnum : ∀ tok, NumTok tok → fvText v = tok →
+      ∃ s', s'.quoted = false ∧ s'.equals = s.equals + 1 ∧ s'.commas = s.commas ∧
+        prepOk (escapeString k) (scanFieldsM .normal (pushAll s (escapeString k)) (cEq :: fvText v ++ tail)) =
+          prepOk (escapeString k ++ cEq :: fvText v) (afterTok s' tail) := by
+    intro tok htok hv'
+    refine ⟨pushAll (eqState (pushAll s (escapeString k))) tok, by simp [eqState, FSt.push, hq],
+      by simp [eqState, FSt.push], by simp [eqState, FSt.push], ?_⟩
+    rw [hv', scanFieldsM_numval tok htok _ hq1 hl1 hl2 tail ht, prepOk_prepOk]
+  cases v with
+  | float bits text =>
+    simp only [fieldValOK, Bool.and_eq_true] at hv
+    exact hnum text (numTok_float text hv.2) rfl
+  | int i =>
+    simp only [fieldValOK, Bool.and_eq_true, decide_eq_true_eq] at hv
+    exact hnum _ (numTok_int i hv.1 hv.2) rfl
+  | uint u =>
+    simp only [fieldValOK, decide_eq_true_eq] at hv
+    exact hnum _ (numTok_uint u hv) rfl
+  | bool b =>
+    have hb : BoolTok (fvText (.bool b)) := by
+      cases b
+      · exact boolTok_false
+      · exact boolTok_true
+    refine ⟨pushAll (eqState (pushAll s (escapeString k))) (fvText (.bool b)), by simp [eqState, FSt.push, hq],
+      by simp [eqState, FSt.push], by simp [eqState, FSt.push], ?_⟩
+    rw [scanFieldsM_boolval _ hb _ hq1 hl1 hl2 tail ht, prepOk_prepOk]
+  | str st =>
+    obtain ⟨s', h1, h2, h3, h4⟩ := scanFieldsM_strval st _ hq1 he1 hl1 hl2 tail ht
+    refine ⟨s', h1, by simpa using h2, by simpa using h3, ?_⟩
+    show prepOk (escapeString k) (scanFieldsM .normal (pushAll s (escapeString k))
+      (cEq :: (cQuote :: escapeStringField st ++ [cQuote]) ++ tail)) = _
+    rw [h4, prepOk_prepOk]
+    rfl
+
+theorem joinCommaB_cons2 (a b : Bytes) (l : List Bytes) :
+    joinCommaB (a :: b :: l) = a ++ cComma :: joinCommaB (b :: l) := rfl
+
+/-- `scanFields`' loop on the text `Fields.MarshalBinary` writes for valid fields, followed by
+    nothing or by the space before the timestamp: all of it is the field section -/
+theorem scanFieldsM_fields (fs : List (Bytes × FV)) (hne : fs ≠ [])
+    (hall : ∀ f ∈ fs, fieldKeyOK f.1 = true ∧ fieldValOK f.2 = true)
+    (s : FSt) (hq : s.quoted = false) (he : s.equals = s.commas) (T : Bytes)
+    (hT : T = [] ∨ T.head? = some cSpace) :
+    scanFieldsM .normal s (joinCommaB (fs.map fun f => appendField f.1 f.2) ++ T) =
+      .ok (joinCommaB (fs.map fun f => appendField f.1 f.2), T) := by
+  induction fs generalizing s with
+  | nil => exact absurd rfl hne
+  | cons f rest ih =>
+    obtain ⟨hkf, hvf⟩ := hall f (by simp)
+    cases rest with
+    | nil =>
+      simp only [List.map_cons, List.map_nil, joinCommaB]
+      have htail : isTail T := by
+        rcases hT with h | h
+        · exact Or.inl h
+        · exact Or.inr (Or.inr h)
+      obtain ⟨s', h1, h2, h3, h4⟩ := scanFieldsM_field f.1 f.2 hkf hvf s hq he T htail
+      rw [h4]
+      have hfin : afterTok s' T = .ok ([], T) := by
+        rcases hT with rfl | h
+        · exact finish_ok s' [] h1 (by omega)
+        · cases T with
+          | nil => simp at h
+          | cons b r =>
+            simp at h; subst h
+            simp only [afterTok]
+            rw [if_neg (by decide)]
+            exact finish_ok s' _ h1 (by omega)
+      rw [hfin]; simp [prepOk]
+    | cons g rest' =>
+      simp only [List.map_cons] at ih ⊢
+      rw [joinCommaB_cons2, List.append_assoc]
+      obtain ⟨s', h1, h2, h3, h4⟩ := scanFieldsM_field f.1 f.2 hkf hvf s hq he
+        (cComma :: (joinCommaB (appendField g.1 g.2 :: rest'.map fun f => appendField f.1 f.2)) ++ T)
+        (Or.inr (Or.inl rfl))
+      simp only [List.cons_append] at h4 ⊢
+      rw [h4]
+      simp only [afterTok, if_true]
+      rw [ih (by simp) (fun x hx => hall x (by simp [hx])) _ (by simp [FSt.push, h1]) (by simp [FSt.push]; omega)]
+      simp [prepOk]
+
 end Influx.LP
